@@ -139,8 +139,19 @@ def gen_good(lits):
     lines.append("    let s: &[unic_langid::LanguageIdentifier] = langid_slice![\"en-US\", \"fr\", \"de_1996\"];")
     lines.append("    let l: Vec<unic_locale::Locale> = locales![\"en-US-u-ca-buddhist\", \"fr\",];")
     lines.append("    let e: Vec<unic_langid::LanguageIdentifier> = langids![];")
+    # long lists (300 literals): the list macros have no length limit below the compiler's own
+    big = ["%s%s-%s%s" % (chr(97 + i % 26), chr(97 + (i // 26) % 26), chr(65 + (i * 7) % 26), chr(65 + (i * 11) % 26)) + ("-valencia" if i % 5 == 0 else "") for i in range(300)]
+    bigl = [b + ("-u-ca-buddhist" if i % 3 == 0 else "-t-h0-hybrid" if i % 3 == 1 else "") for i, b in enumerate(big)]
+    lines.append("    const BIG: [&str; 300] = [%s];" % ", ".join(rust_lit(b) for b in big))
+    lines.append("    const BIGL: [&str; 300] = [%s];" % ", ".join(rust_lit(b) for b in bigl))
+    lines.append("    let bv: Vec<unic_langid::LanguageIdentifier> = langids![%s];" % ", ".join(rust_lit(b) for b in big))
+    lines.append("    let bs: &[unic_langid::LanguageIdentifier] = langid_slice![%s];" % ", ".join(rust_lit(b) for b in big))
+    lines.append("    let bl: Vec<unic_locale::Locale> = locales![%s];" % ", ".join(rust_lit(b) for b in bigl))
+    lines.append("    let big_ok = bv.len() == 300 && bs.len() == 300 && bl.len() == 300 && bv.as_slice() == bs")
+    lines.append("        && bv.iter().zip(BIG.iter()).all(|(a, b)| *a == b.parse::<unic_langid::LanguageIdentifier>().unwrap())")
+    lines.append("        && bl.iter().zip(BIGL.iter()).all(|(a, b)| *a == b.parse::<unic_locale::Locale>().unwrap());")
     lines.append("    let ok = v.len() == 3 && s.len() == 3 && l.len() == 2 && e.is_empty() && v.as_slice() == s && v[0] == \"en-US\".parse::<unic_langid::LanguageIdentifier>().unwrap() && v[2] == \"de-1996\".parse::<unic_langid::LanguageIdentifier>().unwrap() && l[0] == \"en-US-u-ca-buddhist\".parse::<unic_locale::Locale>().unwrap();")
-    lines.append("    println!(\"#LISTS\\t{}\", ok);")
+    lines.append("    println!(\"#LISTS\\t{}\", ok && big_ok);")
     lines.append("}")
     return "\n".join(lines) + "\n", where
 
